@@ -61,7 +61,7 @@ R.model("Node", fields={
     "_busy_lock": "Lock", "_half_ready_connections": "Dict[str,PeerConnection]", "_started": "bool",
     "_stopping": "bool", "_peer_routes": "Dict[str,Dict[Any,List[Peer]]]",
     "_app_waiting_answer": "Dict[str,Application]", "_peer_waiting_answer": "Dict[str,Dict[int,float]]",
-    "_origin_waiting_answer": "Dict[str,Tuple[bytes,float]]", "_sent_answers": "Dict[bytes,Deque[int]]",
+    "_origin_waiting_answer": "Dict[str,Tuple[Opt[bytes],float]]", "_sent_answers": "Dict[Opt[bytes],Deque[int]]",
     "origin_host": "str", "realm_name": "str", "state_id": "int", "vendor_id": "int", "product_name": "str",
     "cea_timeout": "int", "cer_timeout": "int", "dwa_timeout": "int", "idle_timeout": "int",
     "wakeup_interval": "int", "retransmit_queue_size": "int", "end_to_end_seq": "SequenceGenerator",
